@@ -377,6 +377,56 @@ func c12(c *Ctx) {
 		}
 	}
 	c12QueryFailureAborts(c, "C12.4/failure-aborts")
+	// constraints are kept in maps keyed by their name: inserting under a name that is already there drops a declared
+	// constraint without a word, so every insertion into such a map is preceded by a lookup of the same key
+	{
+		r := "C12.15/constraint-names-do-not-collide"
+		n := 0
+		for _, f := range c.allFns {
+			if !fnInPkgs(f, []string{"embedded/sql"}) || len(f.Blocks) == 0 {
+				continue
+			}
+			per := 0
+			allInstrs(f, false, func(in ssa.Instruction) {
+				mu, ok := in.(*ssa.MapUpdate)
+				if !ok {
+					return
+				}
+				mt, ok := mu.Map.Type().Underlying().(*types.Map)
+				if !ok || !strings.HasSuffix(mt.Elem().String(), "sql.CheckConstraint") {
+					return
+				}
+				if kb, ok := mt.Key().Underlying().(*types.Basic); !ok || kb.Kind() != types.String {
+					return
+				}
+				n++
+				per++
+				if fnName(topFn(f)) == "embedded/sql.loadCheckConstraints" {
+					c.okTrivial(r, fmt.Sprintf("%s:checks[name]#%d", fnName(f), per), c.pos(in.Pos()), "catalog loader: re-reads what the creation paths stored under distinct names")
+					return
+				}
+				looked := false
+				allInstrs(f, false, func(x ssa.Instruction) {
+					if lk, ok := x.(*ssa.Lookup); ok && lk.CommaOk && lk.X == mu.Map && desc(lk.Index) == desc(mu.Key) && instrDominates(x, in) {
+						looked = true
+					}
+				})
+				// a map that is being copied / rebuilt from another one of the same kind cannot collide
+				if _, fromRange := mu.Key.(*ssa.Extract); fromRange {
+					if ex := mu.Key.(*ssa.Extract); ex != nil {
+						if _, isNext := ex.Tuple.(*ssa.Next); isNext {
+							looked = true
+						}
+					}
+				}
+				c.check(looked, r, fmt.Sprintf("%s:checks[name]#%d", fnName(f), per), c.pos(in.Pos()), "the name is looked up before the constraint is stored under it",
+					"a CHECK constraint is stored under a name that was not looked up first: a second constraint with the same name (e.g. an explicit name equal to the one generated for an unnamed constraint) silently replaces the first, which is then not enforced")
+			})
+		}
+		if n < 1 {
+			c.undecided(r, "floor", "no insertion into a map of CHECK constraints found")
+		}
+	}
 	// ---- C12.5 unique index only on an empty table -------------------------------------------------------------------------------
 	r = "C12.5/unique-index-creation"
 	if f := c.mustFn(r, "embedded/sql.(*CreateIndexStmt).execAt"); f != nil {
